@@ -45,7 +45,7 @@ func (c *SumCommand) Parse(fs *flag.FlagSet, args []string) error {
 	if c.SrcPattern == "" {
 		return newRequiredOptionError(fs, "src")
 	}
-	if c.From > c.Until {
+	if c.Until != 0 && c.From > c.Until {
 		return errFromIsAfterUntil
 	}
 
